@@ -537,6 +537,11 @@ HTPcreate(filerec_t *file_rec, /* IN: File record to store info in */
     if (file_rec == NULL || (tag == DFTAG_NULL || tag == DFTAG_WILDCARD) || ref == DFREF_WILDCARD)
         HGOTO_ERROR(DFE_ARGS, FAIL);
 
+    /* Refuse a tag/ref that is already in use, before anything is modified */
+    if (HTIfind_dd(file_rec, tag, ref, &dd_ptr, DF_FORWARD) == SUCCEED)
+        HGOTO_ERROR(DFE_DUPDD, FAIL);
+    dd_ptr = NULL;
+
     if (HTIfind_dd(file_rec, (uint16)DFTAG_NULL, (uint16)DFTAG_WILDCARD, &dd_ptr, DF_FORWARD) == FAIL) {
         if (HTInew_dd_block(file_rec) == FAIL) {
             HGOTO_ERROR(DFE_NOFREEDD, FAIL);
